@@ -12,7 +12,11 @@ RULE = ("types as in C04 without standard-library marshaler types (tag names wit
         "two or three different declared struct types of the same name and package path); per type every valid encoding of 3 + n sampled values and every "
         "single-point mutation of it (drop a key, add a key, swap a value's JSON type incl. null, push an integer past each sized bound, "
         "a fraction, array length +-1; <= 400 per encoding): whenever Validate accepts, json.Decoder with DisallowUnknownFields must decode "
-        "into *T (the property observed directly on the real package). Non-trivial: composite type; distinct = operation text")
+        "into *T (the property observed directly on the real package); 'add a key' also with every field / tag name of the type itself; null at "
+        "every position whose Go type is a struct, array, boolean, number or string not behind a pointer must be REJECTED. ~5% of the types are "
+        "generated declared types with same-depth diamonds of embedded structs (and neighbours, name-less tags on embedded structs, a tagged "
+        "and an untagged field of one JSON name), ~6% hold one declared type several times through different wrappers (pointer first, "
+        "by value later, ...). Non-trivial: composite type; distinct = operation text")
 OUTSIDE = (c04.OUTSIDE - {"bytes"}) | {"marshaler", "bigint"}      # byte slices: their schema must still only accept what decodes
 
 
@@ -20,7 +24,18 @@ def gen(rng, tier, n):
     ops = []
     while len(ops) < n:
         used = set()
-        t = gt.same_name_case(rng, used) if rng.random() < 0.05 else gt.gen_type(rng, rng.choice([1, 2, 3]), used)
+        r = rng.random()
+        if r < 0.05:
+            t = gt.same_name_case(rng, used)
+        elif r < 0.10:
+            # same-depth diamonds of embedded structs (their doubly promoted fields are ambiguous: not properties of the type), their
+            # neighbours, embedded structs with a name-less json tag, one JSON name for a tagged and an untagged field of equal depth
+            t = gt.family_case(rng, used, {"diamond": 10, "diamond_near": 2, "inline": 3, "clash": 3}) or gt.gen_type(rng, 2, used)
+        elif r < 0.16:
+            # one declared type several times in one type through different wrappers, in every order (pointer first, then by value ...)
+            t = gt.repeated_named_case(rng, used, ["Inner", "Inner2", "Deep", "Empty", "Levels", "DescTag", "HoldsPtrs", "IDt", "BaseT", "Twice"] + gt.GEN["names"][:8])
+        else:
+            t = gt.gen_type(rng, rng.choice([1, 2, 3]), used)
         args = {"type": t, "seed": rng.randint(0, 10**6), "n": 2 if tier == "quick" else 6}
         if rng.random() < 0.15:
             # history: the same type was inferred earlier in this process with a looser TypeSchemas override for a type inside it
@@ -53,4 +68,10 @@ def judge(o, go, m):
         if k:
             return "known:" + k, go["undecodable"][0]
         return "violation", "accepted by the schema inferred for %s but not decodable: %s (schema %s)" % (go.get("gotype"), go["undecodable"][0], go.get("schema"))
+    if go.get("null_accepted"):
+        # the statement's second form, observed directly: null where the Go type is a struct / array / boolean / number / string not
+        # behind a pointer must be rejected (encoding/json skips a null silently, so "accepted => decodes" cannot see this class)
+        if k:
+            return "known:" + k, go["null_accepted"][0]
+        return "violation", "the schema inferred for %s accepts null in a non-nullable position: %s (schema %s)" % (go.get("gotype"), go["null_accepted"][0], go.get("schema"))
     return "agree", ""
